@@ -24,7 +24,7 @@ REPO = os.environ.get("VERIF_REPO", "/repo")
 BUILD = os.path.join(ROOT, "build")
 SPEC = os.path.join(ROOT, "spec")
 HARNESS = os.path.join(ROOT, "harness")
-EVID = os.path.join(ROOT, "evidence")
+EVID = os.environ.get("VERIF_EVID", os.path.join(ROOT, "evidence"))
 JAR = "/opt/veriftools/tla/tla2tools.jar"
 JARS = JAR + ":/opt/veriftools/tla/CommunityModules-deps.jar"
 TLA_LIB = ":".join([SPEC, os.path.join(SPEC, "lib"), os.path.join(SPEC, "mc"),
